@@ -276,6 +276,11 @@ func RunC03(t *Trace, st *Stats) *Violation {
 			profs = []string{sim.ProfA, sim.ProfRSA, sim.ProfRSAB}
 		}
 		dels := []sim.Delivery{{ErrAt: -1}, GenDelivery(r)}
+		if prod == "readonly:mhsorted" || prod == "openreadable:insertion" {
+			// these take an io.ReaderAt: the Read position a caller left the value at (after sniffing the
+			// version, say) is none of their business
+			dels = append(dels, sim.Delivery{ErrAt: -1, StartPos: Pick(r, []int64{1, 11, int64(len(l.Image) / 2), int64(len(l.Image))})})
+		}
 		if len(l.Payload.Sections) > 1000 {
 			// a very long archive: one stream-like and one seekable profile, one delivery
 			if len(profs) > 3 {
